@@ -104,7 +104,10 @@ def gen_faults(rng, sites=None):
     if not rates:
         site = rng.choice(sorted(sites or FAULT_MENU))
         rates[site] = {k: round(rate * w, 4) for k, w in FAULT_MENU[site].items()}
-    return {"rates": rates, "zombie_q": rng.choice([0.0, 0.05, 0.5, 0.5, 1.0])}
+    out = {"rates": rates, "zombie_q": rng.choice([0.0, 0.05, 0.5, 0.5, 1.0])}
+    if rng.random() < 0.5:
+        out["wake_sites"] = ["get_largest_condition", "find_graph_dict", "find", "run", "impute_reaction", "build_compounds", "ensemble_mcs"]
+    return out
 
 
 def gen_sim(rng, faults=False, sites=None):
